@@ -50,6 +50,9 @@ type Node struct {
 	InSPI              int                      // blocking-capable SPI calls in progress
 	HoldVal            map[uint64]chan struct{} // ValidateBlockProposal of that height waits until the harness closes the channel (a slow consumer that ignores its context)
 	BlockCommittee     map[uint64]bool // heights whose RequestOrderedCommittee fails for as long as its context lives
+	BlockCommit        map[uint64]bool          // heights whose commit callback waits for its context (a consumer whose persistence honours cancellation)
+	HoldCommit         map[uint64]chan struct{} // heights whose commit callback waits until the harness closes the channel (a slow consumer that ignores its context)
+	CommitNilOnCancel  bool                     // a commit callback released by cancellation reports success instead of the context error
 	SpiCalls []*SpiCall
 	spiHold  chan struct{}
 }
@@ -79,6 +82,7 @@ func newNode(x *X, idx int) *Node {
 	id := c[idx].ID
 	n.Mem = &kit.Membership{Me: id, Committee: c}
 	n.BlockCommittee = map[uint64]bool{}
+	n.BlockCommit, n.HoldCommit = map[uint64]bool{}, map[uint64]chan struct{}{}
 	n.Mem.Gate = func(ctx context.Context, h primitives.BlockHeight) error {
 		if !n.BlockCommittee[uint64(h)] {
 			return nil
@@ -124,7 +128,7 @@ func (n *Node) spi(kind string, h uint64, ctx context.Context, block bool) {
 	n.inSPI(1)
 	defer n.inSPI(-1)
 	n.ev("spi-%s(h%d) enter ctxerr=%v", kind, h, ctx.Err() != nil)
-	if ctx.Err() != nil {
+	if ctx.Err() != nil && kind != "commit" {
 		n.x.Bad("C15", "spi-called-with-cancelled-context", "%s for height %d was started with an already cancelled context", kind, h)
 	}
 	if kind == "request" && n.M != nil {
@@ -163,6 +167,14 @@ func (n *Node) config() *interfaces.Config {
 
 func (n *Node) onCommit(ctx context.Context, b interfaces.Block, p []byte) error {
 	h := uint64(b.Height())
+	if n.BlockCommit[h] || n.HoldCommit[h] != nil {
+		n.spiHold = n.HoldCommit[h]
+		n.spi("commit", h, ctx, n.BlockCommit[h])
+		if n.BlockCommit[h] && !n.CommitNilOnCancel {
+			n.ev("commit(h%d,%s) -> error (cancelled)", h, kit.TagOf(b))
+			return ctx.Err()
+		}
+	}
 	if n.CommitErrAt[h] {
 		n.ev("commit(h%d,%s) -> error", h, kit.TagOf(b))
 		return fmt.Errorf("consumer failed")
